@@ -369,7 +369,12 @@ fn path_route(ctx: &mut Ctx, scn: &PairScn, shapes: &[shapefile::Shape], geoms: 
     }
     // the neighbouring data set is written afterwards: other rows, another count
     let r = guarded(|| -> Result<(), shapefile::Error> {
-        let mut w = Writer::from_path(neighbour.with_extension("shp"), table())?;
+        // alternately with a table described by a builder and by the first data set's own table
+        let mut w = if expected.len() % 2 == 0 {
+            Writer::from_path(neighbour.with_extension("shp"), table())?
+        } else {
+            Writer::from_path_with_info(neighbour.with_extension("shp"), Reader::from_path(&shp_path)?.into_table_info())?
+        };
         for k in 0..expected.len() + 2 {
             on_shape!(&shapes[0], s => w.write_shape_and_record(s, &good_row(1000 + k))?, ());
         }
@@ -380,22 +385,29 @@ fn path_route(ctx: &mut Ctx, scn: &PairScn, shapes: &[shapefile::Shape], geoms: 
     }
     ctx.stats.reach("path-route");
     let never = |_: usize, _: usize| false;
-    for route in ["shapefile::read", "Reader::from_path"] {
+    let idx_of = |rec: &dbase::Record| match rec.get("idx") {
+        Some(dbase::FieldValue::Integer(i)) => Some(*i as i64),
+        _ => None,
+    };
+    let ty = _ty;
+    for route in ["shapefile::read", "Reader::from_path", "shapefile::read_as", "Reader::read_as", "neighbour"] {
         let r = guarded(|| -> Result<Vec<(Geom, Option<i64>)>, shapefile::Error> {
-            let v = if route == "shapefile::read" { shapefile::read(&shp_path)? } else { Reader::from_path(&shp_path)?.read()? };
-            Ok(v.iter()
-                .map(|(s, rec)| {
-                    (
-                        capture(s),
-                        match rec.get("idx") {
-                            Some(dbase::FieldValue::Integer(i)) => Some(*i as i64),
-                            _ => None,
-                        },
-                    )
-                })
-                .collect())
+            Ok(match route {
+                "shapefile::read" => shapefile::read(&shp_path)?.iter().map(|(s, rec)| (capture(s), idx_of(rec))).collect(),
+                "Reader::from_path" => Reader::from_path(&shp_path)?.read()?.iter().map(|(s, rec)| (capture(s), idx_of(rec))).collect(),
+                "shapefile::read_as" => crate::on_type!(ty, S => shapefile::read_as::<_, S, dbase::Record>(&shp_path)?.into_iter().map(|(s, rec)| (s.to_geom(), idx_of(&rec))).collect(), vec![]),
+                "Reader::read_as" => crate::on_type!(ty, S => Reader::from_path(&shp_path)?.read_as::<S, dbase::Record>()?.into_iter().map(|(s, rec)| (s.to_geom(), idx_of(&rec))).collect(), vec![]),
+                _ => shapefile::read(neighbour.with_extension("shp"))?.iter().map(|(s, rec)| (capture(s), idx_of(rec))).collect(),
+            })
         });
         match r {
+            Ok(Ok(pairs)) if route == "neighbour" => {
+                let want = expected.len() + 2;
+                let ok = pairs.len() == want && pairs.iter().enumerate().all(|(k, (g, idx))| diff_read(&geoms[0].normalised_for_read(), g, k, &never).is_none() && *idx == Some(1000 + k as i64));
+                if !ok {
+                    ctx.fail("C08", "reader-pairs", "path", format!("the neighbouring data set: {} pairs written by path, read back {:?}", want, pairs.iter().map(|(g, i)| format!("{}#{:?}", g.short(), i)).collect::<Vec<_>>()));
+                }
+            }
             Ok(Ok(pairs)) => {
                 let ok = pairs.len() == expected.len() && pairs.iter().enumerate().all(|(k, (g, idx))| diff_read(&geoms[expected[k]].normalised_for_read(), g, k, &never).is_none() && *idx == Some(k as i64));
                 if !ok {
